@@ -40,7 +40,7 @@ def _finding_of(tree, node_id):
     for i, (parent, child) in enumerate(chain):
         if parent["k"] not in ("d", "c"):
             continue
-        if child["name"].endswith("\\") and i < len(chain) - 1:
+        if child["name"] is not None and child["name"].endswith("\\") and i < len(chain) - 1:
             return "KF-C13-a"
     return None
 
@@ -51,6 +51,8 @@ def _spellable(tree, node_id):
     chain = _path_nodes(tree, node_id)
     for i, (parent, child) in enumerate(chain):
         if parent["k"] in ("d", "c"):
+            if child["name"] is None:
+                continue   # an unnamed field is spelled by the empty step (05c4adc)
             if child["name"] == "" or (child["name"].endswith("\\") and i < len(chain) - 1):
                 return False
     return True
@@ -150,6 +152,9 @@ class C13(Property):
         "Flatland.Path.Lemmas.pyInt_natStr",
         # k4 (Proofs/C13Unspellable): KF-C13-b at the first level, for every tree
         "Flatland.C13.Proofs.fqName_empty_top",
+        "Flatland.C13.Proofs.find_slash2",
+        "Flatland.C13.Proofs.find_fq_unnamed",
+        "Flatland.C13.Proofs.tokenize_slash2",
         "Flatland.C13.Proofs.C13_empty_name_fails_top_partial",
     ]
     extra_proof_modules = ["Proofs.C13Unspellable"]
@@ -160,7 +165,8 @@ class C13(Property):
         "element identity = position in a functional tree (parents/root are derived; pointer upkeep is C08's subject)",
     ]
     assumptions = [
-        "Dict keys are unique strings (they are dict keys); unnamed Dict fields are out of scope; that a child's key "
+        "Dict keys are unique (they are dict keys); an UNNAMED Dict field (name None, at most one per Dict) is stored "
+        "under the key None and is in scope since 05c4adc (model: key = none, empty path step); that a child's key "
         "equals its name is NOT assumed (hypothesis [KeyIsName], KF-C13-c)",
         "a sequence never has 10^4300 or more members (int() digit limit)",
     ]
@@ -176,9 +182,16 @@ class C13(Property):
         "child on the way is stored under its own name (find_fq_iff; pathOK_of_find_fq: a successful round trip forces "
         "every lookup on the way to hit its own child); KF-C13-c is thereby a general theorem (C13_key_mismatch_fails: "
         "every spellable, non-addressable position breaks the law from every start; the old witness is an instance, "
-        "C13_full_fails_key_general). KF-C13-b at the first level is a general theorem too (k4, C13_empty_name_fails_top_partial: in "
-        "EVERY tree a child named '' directly below a non-sequence root has fq_name() '/', which finds the root, from "
-        "every start). NOT proved necessary in general: the two unspellable classes (a Dict field named '' — KF-C13-b, "
+        "C13_full_fails_key_general). Since 05c4adc (the model follows it) an unnamed field and a field named '' both emit the empty "
+        "step, with a slash of its own when it comes last ('//', '/l/0//'), and find() looks the empty step up under the "
+        "key None: find_fq_unnamed (in EVERY tree an unnamed first-level field of a mapping root is found, alone, by its "
+        "fq_name() '//', from every start, strict or not; find_slash2, tokenize_slash2, fqName_empty_top) and its "
+        "negative twin C13_empty_name_fails_top_partial (KF-C13-b at the first level: a field that emits the empty step "
+        "but is not the one stored under None breaks the law: LookupError, or the unnamed sibling). The general theorems "
+        "(find_fq_addressable, find_fq_iff, C13_key_mismatch_fails) carry the explicit hypothesis namedFrom (no unnamed "
+        "field on the way): deeper unnamed fields need tokenize on emitted strings with empty segments and are tied to "
+        "the code by correspondence; the Lean runner re-checks spellable -> (law <-> addressable), unnamed fields "
+        "included, on every generated tree. NOT proved necessary in general: the two unspellable classes (a Dict field named '' — KF-C13-b, "
         "C13_full_fails; anything below a name ending in a backslash — KF-C13-a, C13_full_fails_backslash) are still "
         "refuted by one witness each, because the converse there needs the tokenizer on arbitrary (ill-formed) emitted "
         "strings; the Lean runner re-checks the iff on every spellable position of every generated tree and the "
@@ -474,10 +487,10 @@ class C13(Property):
             if rec["how"] == "pop":
                 # List.pop() clears the old slot's parent but leaves the member below that slot: the chain ends in
                 # the slot, so fq_name() starts with the member's own name and find() starts at the slot
+                # (an unnamed member is the empty step since 05c4adc — '//' — where fq_name() used to raise
+                # AttributeError; derived from _path_segment / fq_name as they are now)
                 name = rec["node"]["name"]
-                if name is None:
-                    return "KF-C13-d" if failure["fq_name"] == {"error": "AttributeError"} and failure["observed"] is None else None
-                fq = "/" + "/".join([cm.esc_name(name)] + rel)
+                fq = cm.fq_of_segments([cm.esc_name(name)] + rel)
                 steps = cm.ref_read(fq)
                 predicted = ["not-an-element"] if not steps else "NotImplementedError"
             elif rec["how"] == "replace":
@@ -486,7 +499,7 @@ class C13(Property):
                 by_segs = cm.doc_segments(case["tree"], rec["by"])
                 if by_segs is None:
                     return None
-                fq = "/" + "/".join(by_segs + rel)
+                fq = cm.fq_of_segments(by_segs + rel)
                 kind, val = cm.ref_eval(case["tree"], fq)
                 predicted = [val] if kind == "ok" else val
             else:
@@ -494,7 +507,7 @@ class C13(Property):
                 lst_segs = cm.doc_segments(case["tree"], rec["list"])
                 if lst_segs is None:
                     return None
-                fq = "/" + "/".join(lst_segs + [str(rec["old"])] + rel)
+                fq = cm.fq_of_segments(lst_segs + [str(rec["old"])] + rel)
                 kind, val = cm.ref_eval(case["tree"], fq)
                 predicted = [val] if kind == "ok" else val
             if failure["fq_name"] == cm.enc(fq) and failure["observed"] == predicted:
@@ -529,6 +542,18 @@ class C13(Property):
             t.append("in-class:%s" % f)
         if fids == {None}:
             t.append("all-addressable")
+        for n in nodes:
+            ch = _path_nodes(case["tree"], n["id"])
+            un = [i for i, (par, c) in enumerate(ch) if par["k"] in ("d", "c") and c["name"] is None]
+            if un:
+                t.append("unnamed-field:on-the-way" if un[-1] < len(ch) - 1 else "unnamed-field:subject")
+                t.append("unnamed-field:depth=%d" % min(un[0] + 1, 4))
+                if any(par["k"] == "l" for par, c in ch):
+                    t.append("unnamed-field:below-a-list-member")
+        for s_id in case["starts"]:
+            ch = _path_nodes(case["tree"], s_id) if any(x["id"] == s_id for x in nodes) else []
+            if any(par["k"] in ("d", "c") and c["name"] is None for par, c in ch):
+                t.append("unnamed-field:start")
         # territory of find_fq_iff: spellable positions (no '' / non-final trailing-backslash Dict names on the way)
         for n in nodes:
             f = _finding_of(case["tree"], n["id"])
